@@ -93,16 +93,19 @@ def parseProg (j : Json) : Option Prog := do
       | _ => none) (← asArr? (j.getObjValD "globals"))
   pure { templates := ts, globals := gs, sz := pySizeof }
 
-def resJson (r : Res) : Json :=
+/-- `nsOn`: the namespace limit is truthy, i.e. `get_size_of_locals()` really measures (otherwise it returns 0 and the
+model's log is a ghost) -/
+def resJson (L : Limits) (r : Res) : Json :=
   match r with
   | .error e => Json.mkObj [("err", jstr e.pyName)]
-  | .ok w => Json.mkObj [("ok", jstr (strOf w.buf.text)), ("log", jarr (w.log.map jnat))]
+  | .ok w => Json.mkObj [("ok", jstr (strOf w.buf.text)), ("log", jarr (w.log.map jnat)),
+                         ("nsOn", Json.bool (match L.ns with | some (_ + 1) => true | _ => false))]
 
 def handle (args : List Json) : Json :=
   match args with
   | [prog, nodes, lims] =>
     match parseProg prog, parseNodes nodes, (asArr? lims).bind (mapM? parseLimits) with
-    | some P, some ns, some ls => jarr (ls.map fun L => resJson (renderTemplate L P ns))
+    | some P, some ns, some ls => jarr (ls.map fun L => resJson L (renderTemplate L P ns))
     | _, _, _ => jerr "bad-case"
   | _ => jerr "bad-args"
 
